@@ -139,37 +139,88 @@ func isLibraryType(t reflect.Type) bool {
 	return strings.Contains(t.PkgPath(), "tuneinsight/lattigo")
 }
 
-// blame finds the deepest library component on the path to a difference that has its own decoder and strictly
-// contains the difference: the mis-decoded field is then reported against that component type, so that a defect
-// of rlwe.CiphertextMetaData is one signature and not one per container. A difference AT a component (nil vs
-// non-nil, number of entries) is attributed to what contains it: presence flags and counts are read there.
-func blame(top reflect.Type, p []step) (subject string, rel string) {
-	last := -1
-	for i, st := range p {
-		t := st.t
-		if t.Kind() == reflect.Ptr {
-			t = t.Elem()
-		}
-		if !isLibraryType(t) {
-			continue
-		}
-		pt := reflect.PtrTo(t)
-		if !(pt.Implements(readerFromT) || pt.Implements(jsonUnmarshT)) {
-			continue
-		}
-		if i == len(p)-1 {
-			continue // the difference is the component as a whole (presence, length): its container's business
-		}
-		last = i
-	}
-	if last < 0 {
-		return "", pathString(p)
-	}
-	t := p[last].t
+// serializableStep: the step lands on a library type that has its own decoder.
+func serializableStep(st step) bool {
+	t := st.t
 	if t.Kind() == reflect.Ptr {
 		t = t.Elem()
 	}
-	return baseName(t), pathString(p[last+1:])
+	if !isLibraryType(t) {
+		return false
+	}
+	pt := reflect.PtrTo(t)
+	return pt.Implements(readerFromT) || pt.Implements(jsonUnmarshT)
+}
+
+// blame attributes a difference found at `path` to the component that mis-decodes it, so that a defect of
+// rlwe.CiphertextMetaData is one signature and not one per container - and so that a container that puts correct
+// sub-objects into the wrong place is not blamed on its innocent components. Candidates are the serializable
+// library components on the path that strictly contain the difference, deepest first; a candidate is blamed only if
+// it fails ON ITS OWN: its sub-object of the original is encoded and decoded into the corresponding sub-object of
+// the receiver as it was before the decode (pre(), rebuilt; a zero value when the receiver has no such sub-object)
+// and does not come out equal. If none fails on its own, the object under test is to blame. The reported field
+// path is relative to the blamed component and stops at the first serializable sub-component.
+func blame(orig any, pre func() any, p []step) (subject string, rel string) {
+	relOf := func(from int) string {
+		for i := from; i < len(p); i++ {
+			if serializableStep(p[i]) {
+				return pathString(p[from : i+1])
+			}
+		}
+		return pathString(p[from:])
+	}
+	for i := len(p) - 2; i >= 0; i-- { // (a difference AT a component - presence, length - is its container's business)
+		if !serializableStep(p[i]) {
+			continue
+		}
+		co, ok := navigate(orig, p[:i+1])
+		if !ok {
+			continue
+		}
+		var sub any
+		if pre != nil {
+			if r := pre(); r != nil {
+				sub, _ = navigate(r, p[:i+1])
+			}
+		}
+		if sub == nil {
+			sub = freshLike(co)
+		}
+		if !componentRoundTrips(co, sub) {
+			t := p[i].t
+			if t.Kind() == reflect.Ptr {
+				t = t.Elem()
+			}
+			return baseName(t), relOf(i + 1)
+		}
+	}
+	return "", relOf(0)
+}
+
+// componentRoundTrips: co's own encoding decoded into sub gives an object structurally equal to co.
+func componentRoundTrips(co, sub any) bool {
+	a := apiOf(co)
+	var o outcome
+	switch {
+	case a.wt != nil && a.rf != nil:
+		var buf bytes.Buffer
+		if o = guard(func() (err error) { _, err = a.wt.WriteTo(&buf); return }); o.err != nil || o.panicked != nil {
+			return true // cannot be judged on its own
+		}
+		o = guard(func() (err error) { _, err = sub.(io.ReaderFrom).ReadFrom(buffer.NewBuffer(buf.Bytes())); return })
+	case a.jm != nil || a.ju != nil:
+		var js []byte
+		if o = guard(func() (err error) { js, err = json.Marshal(co); return }); o.err != nil || o.panicked != nil {
+			return true
+		}
+		o = guard(func() error { return json.Unmarshal(js, sub) })
+	default:
+		return true
+	}
+	if o.err != nil || o.panicked != nil {
+		return false
+	}
+	return deepEq(reflect.ValueOf(co).Elem(), reflect.ValueOf(sub).Elem())
 }
 
 // equalObjects: the catalogue's override, else the type's own Equal, else structural.
@@ -182,9 +233,12 @@ func (x *lc) equalObjects(a, b any) (bool, string) {
 
 // judge compares the decoded receiver with the original: equal (own Equal or structural), re-marshals to
 // the reference bytes, announces the same size, and (where a count is returned) consumed exactly the encoding.
-func (x *lc) judge(d decoder, recv any, n int64) verdict {
+func (x *lc) judge(d decoder, recv any, n int64) verdict { return x.judgePre(d, recv, n, nil) }
+
+// judgePre: pre rebuilds the receiver as it was before the decode (nil: it was a zero value); used for attribution.
+func (x *lc) judgePre(d decoder, recv any, n int64, pre func() any) verdict {
 	ref, _ := x.o.ref(d)
-	v := judgeAgainst(x.e, x.o.obj, ref, d, recv, n)
+	v := judgeAgainst(x.e, x.o.obj, ref, d, recv, n, pre)
 	if v.kind == "binarysize-differs" && d.method != "ReadFrom" && x.o.binOK && x.o.wbinOK && !bytes.Equal(x.o.bin, x.o.wbin) {
 		// BinarySize documents WriteTo; where MarshalBinary and WriteTo of this very object disagree (reported by
 		// family 1) it cannot also match MarshalBinary's length
@@ -193,8 +247,7 @@ func (x *lc) judge(d decoder, recv any, n int64) verdict {
 	return v
 }
 
-func judgeAgainst(e *entry, orig any, ref []byte, d decoder, recv any, n int64) verdict {
-	top := reflect.TypeOf(recv).Elem()
+func judgeAgainst(e *entry, orig any, ref []byte, d decoder, recv any, n int64, pre func() any) verdict {
 	if d.hasN && n != int64(len(ref)) {
 		return verdict{kind: "wrong-count", msg: fmt.Sprintf("returned n=%d for an encoding of %d bytes", n, len(ref))}
 	}
@@ -208,7 +261,7 @@ func judgeAgainst(e *entry, orig any, ref []byte, d decoder, recv any, n int64) 
 	}
 	differs := func(v verdict) verdict {
 		if !seq {
-			sub, rel := blame(top, path)
+			sub, rel := blame(orig, pre, path)
 			v.subject, v.kind = sub, "differs:"+rel
 			v.msg += "; structural difference at " + pathString(path)
 		}
